@@ -122,6 +122,7 @@ type c40World struct {
 	topics     []string
 	partitions map[string]int
 	groups     []string
+	refreshed  bool // partition counts changed after the config records were written
 }
 
 func c40Populate(t *rapid.T) (*metadata.InMemoryStore, c40World) {
@@ -199,6 +200,39 @@ func c40Populate(t *rapid.T) (*metadata.InMemoryStore, c40World) {
 			for p := 0; p < w.partitions[tp]; p++ {
 				if rapid.IntRange(0, 2).Draw(t, "committed") == 0 {
 					_ = s.CommitConsumerOffset(ctx, gid, tp, int32(p), int64(rapid.IntRange(0, 500).Draw(t, "offset")), rapid.SampledFrom([]string{"", "meta"}).Draw(t, "offsetMeta"))
+				}
+			}
+		}
+	}
+	// Later history: the partition count of some topics changed after their config record was
+	// written, without the record being rewritten - what a metadata snapshot refresh does
+	// (InMemoryStore.Update is what the etcd snapshot watcher calls) - or through
+	// CreatePartitions (which rewrites the record).
+	if len(w.topics) > 0 && rapid.IntRange(0, 2).Draw(t, "laterGrowth") > 0 {
+		if meta, err := s.Metadata(ctx, nil); err == nil {
+			grew := false
+			for i := range meta.Topics {
+				name := *meta.Topics[i].Topic
+				switch rapid.IntRange(0, 3).Draw(t, "growHow") {
+				case 1, 2: // snapshot refresh with more partitions
+					add := rapid.IntRange(1, 3).Draw(t, "growBy")
+					for k := 0; k < add; k++ {
+						id := int32(len(meta.Topics[i].Partitions))
+						meta.Topics[i].Partitions = append(meta.Topics[i].Partitions, protocol.MetadataPartition{Partition: id, Replicas: []int32{0}, ISR: []int32{0}})
+					}
+					w.partitions[name] += add
+					grew = true
+				}
+			}
+			if grew {
+				s.Update(*meta)
+				w.refreshed = true
+			}
+			for _, tp := range w.topics {
+				if rapid.IntRange(0, 4).Draw(t, "createPartitions") == 2 {
+					if s.CreatePartitions(ctx, tp, int32(w.partitions[tp]+1)) == nil {
+						w.partitions[tp]++
+					}
 				}
 			}
 		}
@@ -416,6 +450,9 @@ func TestVF_C40_Tools(t *testing.T) {
 	rapid.Check(t, func(t *rapid.T) {
 		inner, w := c40Populate(t)
 		rec.set(inner)
+		if w.refreshed {
+			st.Class("partition-count-changed-after-config-was-stored")
+		}
 		ncalls := rapid.IntRange(1, 6).Draw(t, "calls")
 		for i := 0; i < ncalls; i++ {
 			tool := tools[rapid.IntRange(0, len(tools)-1).Draw(t, "tool")]
